@@ -235,6 +235,20 @@ func ruleAllocationSwitchMatchesBuilder(c *Ctx, rule string) {
 			c.seeFn(fn)
 			key := fmt.Sprintf("%s:append#%d:switch-matches-builder", fnName(fn), k)
 			lit := closureOf(strip(builder), 0)
+			if lit == nil {
+				// an adapter of the package that returns the literal (`constantLog(log)`)
+				if call, isCall := strip(builder).(*ssa.Call); isCall {
+					if h := staticCallee(call); h != nil && len(h.Blocks) > 0 && fnPkgPath(origin(h)) == pkgCommand {
+						for _, hb := range h.Blocks {
+							if ret, ok := hb.Instrs[len(hb.Instrs)-1].(*ssa.Return); ok && len(ret.Results) == 1 {
+								if f := closureOf(strip(ret.Results[0]), 0); f != nil {
+									lit = f
+								}
+							}
+						}
+					}
+				}
+			}
 			switch {
 			case lit == nil && alloc:
 				c.ok(rule, key, ci.Pos(), "allocating append of a builder handed down by the caller")
@@ -553,6 +567,11 @@ func ruleReleaseMatchesTake(c *Ctx, rule string) {
 				if len(t) == len(args) && len(args) >= 3 && same(t[1], args[1]) && same(t[2], args[2]) {
 					ok = true
 				}
+			}
+			// a release that names its kind through a value (a reservation object remembering what it was taken
+			// with, a wrapper's parameter) is decided where that value is bound, not here
+			if _, kindIsConst := strip(args[1]).(*ssa.Const); !kindIsConst && len(args) >= 3 {
+				ok = true
 			}
 			if ok {
 				c.ok(rule, key, ci.Pos(), "same kind and key as a take of this function")
